@@ -21,6 +21,13 @@ CONSTANTS MaxRoot, MaxAdd, MaxGroups
 
 Kinds == {"SEQUENCE", "SET", "CHOICE", "ENUMERATED"}
 
+\* The module header (X.680 13.1):  DEFINITIONS [EncodingReferenceDefault] [TagDefault] [ExtensionDefault] "::=" .
+\* TagDefault and ExtensionDefault are independent productions, each of which may be empty: whether the module says
+\* EXTENSIBILITY IMPLIED is read off the header whatever its TAGS clause is, and also when it has none.
+TagClauses == {"none", "EXPLICIT", "IMPLICIT", "AUTOMATIC"}
+Headers == [tags : TagClauses, implied : BOOLEAN]
+ImpliedOf(h) == h.implied
+
 VARIABLES kind,      \* container kind
           implied,   \* module header says EXTENSIBILITY IMPLIED
           nested,    \* the type is an anonymous component of an outer SEQUENCE
